@@ -34,6 +34,7 @@ ModuleCode == {"member-func-call", "member-class-use", "member-const", "type-ali
 Docs == {"PLAINTEXT", "GOOGLE", "NUMPYDOC", "REST", "malformed-numpy", "malformed-google", "malformed-rest", "unicode", "raw-backslash",
          "odd-types-numpy", "odd-types-google", "odd-types-rest",
          "member-named-like-module-numpy", "member-named-like-module-google", "member-named-like-module-rest",    \* gadget.py defines gadget() and Gadget.gadget()
+         "package-file-declarations-named-like-submodules-numpy",   \* pkg/__init__.py defines helper() and class widget next to pkg/helper.py and pkg/widget.py
          "module-named-like-package-numpy"}                                                                       \* pkg/pkg.py        \* docstring type expressions that are not plain names
 
 Features ==
